@@ -82,6 +82,8 @@ class Buf:
             return "B"
         if k == "X":
             return f"{self.t[1]}"
+        if k == "Xb":
+            return f"bytes({self.t[1]})"
         if k == "cat":
             return f"({self.t[1]!r}+{self.t[2]!r})"
         if k == "slice":
@@ -161,7 +163,10 @@ class Interp:
                 return Buf(("none",))
             return Opaque("const")
         if isinstance(e, ast.Name):
-            return st.env.get(e.id, Opaque(e.id))
+            v = st.env.get(e.id, Opaque(e.id))
+            if isinstance(v, Buf) and v.t[0] == "X" and self.known_bytes(st, v.t[1]):
+                return Buf(("Xb", v.t[1]))  # the chunk is known to be exactly `bytes` on this path
+            return v
         if isinstance(e, ast.Attribute):
             return st.env.get(norm(e), Opaque(norm(e)))
         if isinstance(e, ast.NamedExpr):
@@ -186,7 +191,12 @@ class Interp:
             f = norm(e.func)
             if f == "len" and len(e.args) == 1:
                 return self.length(self.ev(e.args[0], st))
-            if f in ("bytes", "memoryview", "bytearray") and len(e.args) == 1:
+            if f == "bytes" and len(e.args) == 1:
+                v = self.ev(e.args[0], st)
+                if isinstance(v, Buf) and v.t[0] == "X":
+                    return Buf(("Xb", v.t[1]))  # byte-normalised copy of a bytes-like chunk
+                return v
+            if f in ("memoryview", "bytearray") and len(e.args) == 1:
                 return self.ev(e.args[0], st)
             return Opaque(f"call {f}")
         if isinstance(e, ast.Subscript):
@@ -205,12 +215,26 @@ class Interp:
             return Opaque("subscript")
         return Opaque(type(e).__name__)
 
+    @staticmethod
+    def known_bytes(st: "PathState", pname: str) -> bool:
+        """The path took a branch that establishes `type(p) is bytes` / isinstance(p, bytes)."""
+        for text, val in st.other_conds:
+            t = text.replace(" ", "")
+            if t in (f"type({pname})isbytes", f"type({pname})==bytes", f"isinstance({pname},bytes)") and val:
+                return True
+            if t in (f"type({pname})isnotbytes", f"type({pname})!=bytes") and not val:
+                return True
+        return False
+
     def length(self, v: Any) -> Any:
         if isinstance(v, Buf):
             k = v.t[0]
             if k == "B":
                 return Lin.sym("L")
             if k == "X":
+                # len() of an arbitrary bytes-like object counts items, not bytes (memoryview.cast)
+                return Lin.sym(f"items({v.t[1]})")
+            if k == "Xb":
                 return Lin.sym(f"len({v.t[1]})")
             if k == "none":
                 return Lin.c(0)
